@@ -140,4 +140,129 @@ theorem asm_step_spec (a : ASM) (op : AsmOp) (g : GenStep) : AsmSpec a op g := b
   · exact asm_spec_setClose a g
   · exact asm_spec_setWrite a g
 
+/-- a transition that invokes a callback (outConnectEvent / outCloseEvent / outReadEvent /
+    outWriteEvent; in the code the callback is the LAST statement of `_do*Op`, so the state the
+    model returns is the state at callback entry) does so with no operation active -/
+def AsmCbSpec (a : ASM) (op : AsmOp) (g : GenStep) : Prop :=
+  ∀ evs, (a.step op g).2 = .ok evs → evs ≠ [] →
+    (a.step op g).1.activeOps = 0 ∧ (a.step op g).1.result = none
+
+macro "asm_bash_cb" : tactic => `(tactic|
+  (simp [AsmCbSpec, ASM.step, ASM.inReadEvent, ASM.inWriteEvent, ASM.setHandshakeOp, ASM.setCloseOp,
+      ASM.setWriteOp, ASM.guard, ASM.checkAssert, ASM.activeOps, ASM.doHandshakeOp, ASM.doCloseOp,
+      ASM.doReadOp, ASM.doWriteOp, ASM.clear]))
+
+set_option maxHeartbeats 1000000 in
+theorem asm_cb_inRead (a : ASM) (g : GenStep) : AsmCbSpec a .inRead g := by
+  obtain ⟨h, c, r, w, res⟩ := a
+  cases res with
+  | none =>
+    cases g with
+    | yld v =>
+      rcases nat_tri v with rfl | rfl | ⟨k, rfl⟩ <;>
+      cases h <;> cases c <;> cases r <;> cases w <;> asm_bash_cb
+    | stop => cases h <;> cases c <;> cases r <;> cases w <;> asm_bash_cb
+    | raise => cases h <;> cases c <;> cases r <;> cases w <;> asm_bash_cb
+  | some x =>
+    rcases nat_tri x with rfl | rfl | ⟨j, rfl⟩ <;>
+    cases g with
+    | yld v =>
+      rcases nat_tri v with rfl | rfl | ⟨k, rfl⟩ <;>
+      cases h <;> cases c <;> cases r <;> cases w <;> asm_bash_cb
+    | stop => cases h <;> cases c <;> cases r <;> cases w <;> asm_bash_cb
+    | raise => cases h <;> cases c <;> cases r <;> cases w <;> asm_bash_cb
+
+
+set_option maxHeartbeats 1000000 in
+theorem asm_cb_inWrite (a : ASM) (g : GenStep) : AsmCbSpec a .inWrite g := by
+  obtain ⟨h, c, r, w, res⟩ := a
+  cases res with
+  | none =>
+    cases g with
+    | yld v =>
+      rcases nat_tri v with rfl | rfl | ⟨k, rfl⟩ <;>
+      cases h <;> cases c <;> cases r <;> cases w <;> asm_bash_cb
+    | stop => cases h <;> cases c <;> cases r <;> cases w <;> asm_bash_cb
+    | raise => cases h <;> cases c <;> cases r <;> cases w <;> asm_bash_cb
+  | some x =>
+    rcases nat_tri x with rfl | rfl | ⟨j, rfl⟩ <;>
+    cases g with
+    | yld v =>
+      rcases nat_tri v with rfl | rfl | ⟨k, rfl⟩ <;>
+      cases h <;> cases c <;> cases r <;> cases w <;> asm_bash_cb
+    | stop => cases h <;> cases c <;> cases r <;> cases w <;> asm_bash_cb
+    | raise => cases h <;> cases c <;> cases r <;> cases w <;> asm_bash_cb
+
+
+set_option maxHeartbeats 1000000 in
+theorem asm_cb_setHandshake (a : ASM) (g : GenStep) : AsmCbSpec a .setHandshake g := by
+  obtain ⟨h, c, r, w, res⟩ := a
+  cases res with
+  | none =>
+    cases g with
+    | yld v =>
+      rcases nat_tri v with rfl | rfl | ⟨k, rfl⟩ <;>
+      cases h <;> cases c <;> cases r <;> cases w <;> asm_bash_cb
+    | stop => cases h <;> cases c <;> cases r <;> cases w <;> asm_bash_cb
+    | raise => cases h <;> cases c <;> cases r <;> cases w <;> asm_bash_cb
+  | some x =>
+    rcases nat_tri x with rfl | rfl | ⟨j, rfl⟩ <;>
+    cases g with
+    | yld v =>
+      rcases nat_tri v with rfl | rfl | ⟨k, rfl⟩ <;>
+      cases h <;> cases c <;> cases r <;> cases w <;> asm_bash_cb
+    | stop => cases h <;> cases c <;> cases r <;> cases w <;> asm_bash_cb
+    | raise => cases h <;> cases c <;> cases r <;> cases w <;> asm_bash_cb
+
+
+set_option maxHeartbeats 1000000 in
+theorem asm_cb_setClose (a : ASM) (g : GenStep) : AsmCbSpec a .setClose g := by
+  obtain ⟨h, c, r, w, res⟩ := a
+  cases res with
+  | none =>
+    cases g with
+    | yld v =>
+      rcases nat_tri v with rfl | rfl | ⟨k, rfl⟩ <;>
+      cases h <;> cases c <;> cases r <;> cases w <;> asm_bash_cb
+    | stop => cases h <;> cases c <;> cases r <;> cases w <;> asm_bash_cb
+    | raise => cases h <;> cases c <;> cases r <;> cases w <;> asm_bash_cb
+  | some x =>
+    rcases nat_tri x with rfl | rfl | ⟨j, rfl⟩ <;>
+    cases g with
+    | yld v =>
+      rcases nat_tri v with rfl | rfl | ⟨k, rfl⟩ <;>
+      cases h <;> cases c <;> cases r <;> cases w <;> asm_bash_cb
+    | stop => cases h <;> cases c <;> cases r <;> cases w <;> asm_bash_cb
+    | raise => cases h <;> cases c <;> cases r <;> cases w <;> asm_bash_cb
+
+
+set_option maxHeartbeats 1000000 in
+theorem asm_cb_setWrite (a : ASM) (g : GenStep) : AsmCbSpec a .setWrite g := by
+  obtain ⟨h, c, r, w, res⟩ := a
+  cases res with
+  | none =>
+    cases g with
+    | yld v =>
+      rcases nat_tri v with rfl | rfl | ⟨k, rfl⟩ <;>
+      cases h <;> cases c <;> cases r <;> cases w <;> asm_bash_cb
+    | stop => cases h <;> cases c <;> cases r <;> cases w <;> asm_bash_cb
+    | raise => cases h <;> cases c <;> cases r <;> cases w <;> asm_bash_cb
+  | some x =>
+    rcases nat_tri x with rfl | rfl | ⟨j, rfl⟩ <;>
+    cases g with
+    | yld v =>
+      rcases nat_tri v with rfl | rfl | ⟨k, rfl⟩ <;>
+      cases h <;> cases c <;> cases r <;> cases w <;> asm_bash_cb
+    | stop => cases h <;> cases c <;> cases r <;> cases w <;> asm_bash_cb
+    | raise => cases h <;> cases c <;> cases r <;> cases w <;> asm_bash_cb
+
+
+theorem asm_callback_spec (a : ASM) (op : AsmOp) (g : GenStep) : AsmCbSpec a op g := by
+  cases op
+  · exact asm_cb_inRead a g
+  · exact asm_cb_inWrite a g
+  · exact asm_cb_setHandshake a g
+  · exact asm_cb_setClose a g
+  · exact asm_cb_setWrite a g
+
 end Tls.IO
